@@ -93,14 +93,14 @@ func hist(h []int) []string {
 
 // reference model
 type model struct {
-	queue     []int        // item indices in hand-out order
-	givenBack map[int]bool // items restored after a build and not handed out since
-	streaming bool
-	streamed  map[int]bool
-	handed    []int // handed out in this stream, in order
-	prefetch  []int
+	queue      []int        // item indices in hand-out order
+	givenBack  map[int]bool // items restored after a build and not handed out since
+	streaming  bool
+	streamed   map[int]bool
+	handed     []int // handed out in this stream, in order
+	prefetch   []int
 	prefetched bool
-	lim       limits
+	lim        limits
 }
 
 func (m *model) has(i int) bool {
@@ -464,6 +464,9 @@ func main() {
 	r := evid.Start("C23", "model_checking")
 	if evid.RacePass() {
 		for _, sc := range sScenarios(true) {
+			if sc.observe {
+				continue // can deadlock for real when run free
+			}
 			var o *sObs
 			b := sBody(sc, &o)
 			for i := 0; i < evid.Pick(r, 300, 3000); i++ {
